@@ -487,7 +487,7 @@ func genCopyPair(t *rapid.T, l Layout, now int64, rel string, allowCopyNaNVals b
 	if rapid.Bool().Draw(t, "nanHoles") {
 		nanPct = 10
 	}
-	p.Src = FileSpec{L: l, Writes: genWrites(t, l, now, valGeneral, nanPct)}
+	p.Src = genSpec(t, l, now, valGeneral, nanPct)
 	p.DestMode = rapid.SampledFrom([]string{"absent", "fresh", "same", "perturbed", "perturbed", "random", "coarser-equal", "coarser-equal"}).Draw(t, "destMode")
 	switch p.DestMode {
 	case "perturbed", "random", "coarser-equal":
@@ -528,7 +528,22 @@ func subtleLayoutVariant(l Layout) Layout {
 			return v
 		}
 	}
-	v.Archives[n-1].Points += 7
+	add := int64(7)
+	for add > 0 && last.Step*(last.Points+add) > 1<<30 {
+		add--
+	}
+	if add == 0 {
+		// (a last archive at the retention limit: shorten it instead, or drop it)
+		if n >= 2 {
+			v.Archives = v.Archives[:n-1]
+			return v
+		}
+		if last.Points > 1 {
+			v.Archives[n-1].Points--
+			return v
+		}
+	}
+	v.Archives[n-1].Points += add
 	return v
 }
 
@@ -543,6 +558,7 @@ func genCLILayout(t *rapid.T) Layout {
 	o := defaultLayoutOpts()
 	o.AllowMultiPage = false
 	o.MaxArchives = 3
+	o.HugePct = 1 // a finest archive at / beyond the sizes at which plausible block, chunk and batch buffers end
 	return genLayout(t, o)
 }
 
